@@ -84,6 +84,11 @@ def harnesses(tier):
                            nobody_ok='*', unwind=12, object_bits=10, timeout=600, mem_gb=6, replay=False,
                            bounds='width / height / other attribute whose value is any %d non-NUL bytes, figure or inline' % vl,
                            desc='%s + correct_dimension_units: the private copy of the attribute value is read and written only inside its block' % fn))
+    hs.append(dict(name='c01_bundle_image_url', src='c01/bundleurl.c', defs=dict(PMAX=1200 if tier == 'quick' else 4000), pool_off=True,
+                   units=['repo:textbundle.c', 'repo:token.c', 'repo:stack.c', 'repo:object_pool.c', 'repo:char.c'],
+                   nobody_ok='*', unwind=6, unwindset=['main.0:10'], timeout=600, mem_gb=6, replay=False,
+                   bounds='inline image whose (url) group spans 2..%d bytes, at block level or inside a block quote' % (1200 if tier == 'quick' else 4000),
+                   desc='textbundle.c sub_asset_paths/traverse_for_images: the image url is copied without leaving the receiving buffer'))
     hs.append(dict(name='c01_source_copy', src='c19/newsize.c', unwind=8, timeout=600, mem_gb=6, functional=True, replay=False,
                    bounds='every source length 0..8190 (symbolic)',
                    desc='d_string_new (the private copy every string entry point makes of the caller\'s text): the buffer has room for the text and its terminator at every power-of-two length'))
